@@ -30,10 +30,7 @@ def modules(tier):
         for line in f:
             h, name = line.split()
             out.append((name, h))
-    if tier == 'quick':
-        repo = [m for m in out if m[0].startswith('repo/')]
-        std = [m for m in out if m[0].startswith('stdlib/')]
-        out = repo + std[::6]
+    # the whole corpus takes well under a minute on 16 cores, so both tiers enumerate all of it
     return out
 
 
